@@ -374,11 +374,17 @@ def run(ctx, col: Collector):
             sites.append((f'{cname}.__init__ schema default', d.value if isinstance(d, ast.Constant) else None, d or init.node, init.file))
         # literals used as implicit schema in the two builds
         for cname in ('ColumnBlueprint', 'TableGroupBlueprint'):
-            b = idx.func(BP, f'{cname}.build')
+            from ..inline import inlined_info
+            b = inlined_info(idx, idx.func(BP, f'{cname}.build'), depth=2)
             lits = []
             for n in ast.walk(b.node):
                 if isinstance(n, ast.Tuple) and len(n.elts) == 2 and isinstance(n.elts[0], ast.Constant) and isinstance(n.elts[0].value, str):
                     lits.append(n.elts[0])
+            # `schema = 'public'` / `schema, name = 'public', x` spelled as separate assignments
+            for n in ast.walk(b.node):
+                if isinstance(n, ast.Assign) and len(n.targets) == 1 and isinstance(n.targets[0], ast.Name) and 'schema' in n.targets[0].id.lower() \
+                        and isinstance(n.value, ast.Constant) and isinstance(n.value.value, str):
+                    lits.append(n.value)
             if not lits:
                 raise Unrecognised(f'{cname}.build has no `(<default schema>, name)` fallback', b.node)
             for l in lits:
